@@ -14,6 +14,7 @@ RULE = (
     "decay groups from random subsets of chains with renamed intermediates. non-trivial = n>=3 finals; distinct = "
     "distinct (n, chain grouping set[, partner]) tuple."
 )
+RULE += '  Also: repeated enumeration after the previous result was edited in place and for new particle objects that carry earlier names.'
 ASSUMPTIONS = [
     "reference groupings are computed by an independent recursive leaf collection over (mother, daughters) pairs",
     "identical=True compares multisets of name lists, identical=False sets of particle sets (DESIGN C14)",
